@@ -2,9 +2,9 @@
 from lib import pipeline
 
 LEVEL = "proof"
-MODEL_FILES = ["Model/SerdeM.v", "Model/SerdeIO.v", "Model/GraphM.v", "Model/StableM.v"]
+MODEL_FILES = ["Model/SerdeM.v", "Model/SerdeIO.v", "Model/GraphM.v", "Model/StableM.v", "Model/SerdeGM.v", "Model/GraphMapM.v"]
 THEOREMS = []
-STREAMS = [("C17g", 1200, 40000), ("C17s", 1200, 40000)]
+STREAMS = [("C17g", 1200, 40000), ("C17s", 1200, 40000), ("C17m", 1500, 40000)]
 SHARD = 1500
 RELEASE_TOO = True
 RULE = ("Graph and StableGraph histories (add/remove nodes and edges, reverse) interleaved with: ser (the serde value is "
@@ -14,10 +14,15 @@ RULE = ("Graph and StableGraph histories (add/remove nodes and edges, reverse) i
         "property), xload (a Graph stream loaded as StableGraph and back), bytemut (12 byte-level mutations of the JSON and bincode "
         "streams: truncate, bit flip, splice; any Ok result is then used further), and one case in 60 a u8 graph with 254 then 255 "
         "nodes; u16/u32 otherwise; debug and release. distinct = sha1 of the case; non-trivial = a round trip of a graph with at "
-        "least one removal before it, or a deser of a wire with holes")
+        "least one removal before it, or a deser of a wire with holes. Stream C17m: GraphMap<i32,i32> histories (the C03 operations, "
+        "directed and undirected, RandomState and fxhash) interleaved with ser (wire compared with the model and, by the oracle, with "
+        "the map's own nodes and edges; JSON and bincode decoded again; 12 byte-level mutations), roundtrip (continue on the reloaded "
+        "map, node order included) and deser of generated wires (0..6 node weights 15% duplicated, parallel and antiparallel edges, "
+        "self-loops, 6% holes, 4% null edges, 6% wrong edge property, 5% endpoints out of range); non-trivial = a roundtrip after a "
+        "removal or a deser wire with a duplicated node weight or a repeated edge")
 ASSUMPTIONS = [
     "the model works on the serde VALUE (nodes, node_holes, edge_property, edges); serde_json and bincode byte codecs are trusted and only exercised differentially",
-    "weights are u32 numbers",
+    "weights are u32 numbers (i32 keys and weights for GraphMap)",
 ]
 SCOPE = "see Props/C17.v"
 
@@ -27,6 +32,8 @@ def nums(l):
 
 
 def nontrivial(stream, header, ops, obs):
+    if stream == "C17m":
+        return nontrivial_gm(header, ops)
     removed = False
     for o in ops:
         t = o.split()
@@ -108,7 +115,95 @@ def expect_deser(stable, directed, cap, capcheck, wire):
     return True, slots, edges
 
 
+def nontrivial_gm(header, ops):
+    removed = False
+    for o in ops:
+        t = o.split()
+        if t[0] in ("remove_node", "remove_edge"):
+            removed = True
+        elif t[0] == "roundtrip" and removed:
+            return True
+        elif t[0] == "deser":
+            nodes, holes, wdir, edges = parse_wire([int(x) for x in t[1:]])
+            es = [e[:2] for e in edges if e is not None]
+            if len(set(nodes)) != len(nodes) or len(set(es)) != len(es):
+                return True
+    return False
+
+
+def gm_key(directed, a, b):
+    return (a, b) if directed or a <= b else (b, a)
+
+
+def gm_content(bat):
+    """(node list, [(key, weight)] in all_edges order) from a GraphMap battery"""
+    n = nums(bat[1])
+    e = nums(bat[2])
+    return n, [((e[i], e[i + 1]), e[i + 2]) for i in range(0, len(e) - 2, 3)]
+
+
+def oracle_gm(header, ops, obs):
+    groups = pipeline.split_ops(obs)
+    if len(groups) != len(ops):
+        return {"class": "missing-observations", "got": len(groups), "want": len(ops)}
+    directed = int(header.split()[2]) == 1
+    cur = ([], [])
+
+    def bad(k, cls, want=None):
+        return {"class": cls, "op_index": k, "op": ops[k][:100], "got": groups[k][:4], "want": want}
+
+    for k, (o, g) in enumerate(zip(ops, groups)):
+        t = o.split()
+        a = [int(x) for x in t[1:]]
+        name = t[0]
+        first = g[0] if g else ""
+        if first == "panic" and name in ("ser", "roundtrip", "deser"):
+            return bad(k, "serde-deserialization-panicked")
+        if any("battery-panic" in x or "mismatch" in x for x in g):
+            return bad(k, "serde-graph-inconsistent-under-further-use")
+        if any(x.startswith("panic-on-mutated") for x in g):
+            return bad(k, "serde-mutated-stream-panics-or-corrupts")
+        if any(x.startswith("codec-") for x in g):
+            return bad(k, "serde-json-or-bincode-round-trip-differs")
+        if name == "ser":
+            nodes, holes, wdir, edges = parse_wire(nums(first))
+            if cur is not None:
+                want_edges = sorted(cur[1])
+                try:
+                    got_edges = sorted((gm_key(directed, nodes[e[0]], nodes[e[1]]), e[2]) for e in edges)
+                except (TypeError, IndexError):
+                    got_edges = None
+                if nodes != cur[0] or holes or wdir != directed or got_edges != want_edges:
+                    return bad(k, "serde-graphmap-stream-is-not-the-map", [cur[0], want_edges])
+        elif name == "roundtrip":
+            if first != "unit":
+                return bad(k, "serde-round-trip-rejected-its-own-output")
+            new = gm_content(g[1:])
+            if cur is not None and (new[0] != cur[0] or sorted(new[1]) != sorted(cur[1])):
+                return bad(k, "serde-round-trip-changed-the-graph", [cur[0], sorted(cur[1])])
+            cur = new
+        elif name == "deser":
+            nodes, holes, wdir, edges = parse_wire(a)
+            ok = not holes and wdir == directed and all(e is not None and 0 <= e[0] < len(nodes) and 0 <= e[1] < len(nodes) for e in edges)
+            if (first == "unit") != ok:
+                return bad(k, "serde-accepts-or-rejects-the-wrong-input", "Ok" if ok else "Err")
+            if ok:
+                want_nodes = list(dict.fromkeys(nodes))
+                want_edges = {}
+                for e in edges:
+                    want_edges[gm_key(directed, nodes[e[0]], nodes[e[1]])] = e[2]
+                new = gm_content(g[1:])
+                if new[0] != want_nodes or new[1] != list(want_edges.items()):
+                    return bad(k, "serde-loaded-graph-differs-from-the-stream", [want_nodes, list(want_edges.items())])
+                cur = new
+        elif len(g) > 3 and g[1].startswith("counts"):
+            cur = gm_content(g[1:])
+    return None
+
+
 def oracle(stream, header, ops, obs):
+    if stream == "C17m":
+        return oracle_gm(header, ops, obs)
     groups = pipeline.split_ops(obs)
     if len(groups) != len(ops):
         return {"class": "missing-observations", "got": len(groups), "want": len(ops)}
